@@ -12,6 +12,8 @@ pub enum Fill {
 }
 
 pub struct SimDevice {
+    /// the stack filled the (very large) transmit ring within a single call: it is emitting without end
+    pub runaway: bool,
     pub rx: VecDeque<Vec<u8>>,
     pub tx: Vec<Vec<u8>>,
     pub medium: Medium,
@@ -33,6 +35,7 @@ pub struct SimDevice {
 impl SimDevice {
     pub fn new(medium: Medium, mtu: usize) -> SimDevice {
         SimDevice {
+            runaway: false,
             rx: VecDeque::new(),
             tx: Vec::new(),
             medium,
@@ -50,6 +53,13 @@ impl SimDevice {
     /// A token is available iff the tx ring has a free slot; the slot is only used up when the
     /// token is consumed.
     fn take_budget(&mut self) -> bool {
+        // no real transmit ring is unbounded: after 40 000 frames within one poll (the most a configuration here can legitimately emit in one go is 262144 octets in 16-octet segments) the device is full (a stack that
+        // keeps emitting without end is then a stack that does not come to rest, instead of one that eats all memory)
+        if self.tx.len() >= 40_000 {
+            self.refused += 1;
+            self.runaway = true;
+            return false;
+        }
         match self.tx_budget {
             Some(0) => {
                 self.refused += 1;
